@@ -146,7 +146,8 @@ def _e2_task(args):
     version = args[3] if len(args) > 3 else VERSION[D]
     import z3
     from pysym import loader, shims, Unsupported, SymStr, And, Or, Not, cross
-    from pysym.pstr import PStr, Explorer, SymInt
+    from pysym.pstr import PStr, Explorer, SymInt, cin
+    PLAIN = set(range(48, 58)) | {43, 45, 46}
     t0 = time.time()
     res = {'D': D, 'n': n, 'version': version, 'paths': 0, 'queries': 0, 'solver_s': 0.0, 'cex': [], 'unknown': [], 'lenient_paths': 0}
     res.update(cross.new_stats())
@@ -199,6 +200,12 @@ def _e2_task(args):
                     res['lenient_paths'] += 1
                     if not exclude:
                         ask('A1', pc + [Not(G)])
+                    elif D in ('DT', 'TM', 'DTM') and level == 1:
+                        # the recorded family for dates and times is "strptime tolerates blanks / odd characters inside a string
+                        # of canonical LENGTH"; a string made of digits, '.', '+', '-' only that is accepted through a lenient
+                        # reading is something else (e.g. a fraction point after 4 digits) and is reported
+                        plain = And(*[cin(c, PLAIN) for c in s.chars]) if n else True
+                        ask('A1', pc + [Not(G), plain])
                     continue
                 numeric = D in ('SI', 'NM')
                 canon = _canonical_numeric(D, s) if numeric else True
